@@ -714,11 +714,11 @@ _SL_IDX = dict(file=TRI, fn_anchor=r"fn insert_transactional\(", name="verif_sli
                stmts=[dict(block=r"if let Some\(index\) = index\.as_deref_mut\(\)")], result="let _ = &original_coords;")
 _SL_ORI = dict(file=TRI, fn_anchor=r"pub\(in crate::core\) fn validate_geometric_cell_orientation\(", name="verif_slice_orientation_decision",
                params="&self, orientation: i32, cell_key: CellKey, cell: &Cell<K::Scalar, U, V, D>", ret="Result<(), TriangulationValidationError>",
-               stmts=[dict(block=r"if orientation == 0 \{"), dict(block=r"if orientation < 0 \{")], result="Ok(())")
+               stmts=[dict(rest_of_block_after=r"let orientation = self\.evaluate_cell_orientation_for_context\(", wrap_loop=True)], result="Ok(())")
 K("tri.orientation_decision", ["C05"], TRI, "tri_slices.rs", "orientation_decision_contract", "K-slice",
   [dict(file=TRI, name="Triangulation::validate_geometric_cell_orientation (K-slice: loop body)", anchor=_SL_ORI["fn_anchor"])],
   slices=[_SL_ORI, _SL_IDX], extra_attach=[("src/core/cell.rs", "cell_helper.rs")], timeout=900,
-  assumed=["K-slice: the two `if orientation ..` statements of the loop body, everything else (cell iteration, the orientation predicate itself) dropped; format! stubbed"],
+  assumed=["K-slice: the loop body after `let orientation = ..?;` (run once, so `continue` ends it), everything else (cell iteration, the orientation predicate itself) dropped; format! stubbed"],
   obligations=["positive-only"],
   claim="per-cell decision of validate_geometric_cell_orientation: Ok <=> orientation > 0 (flat and inverted cells rejected), for every i32 orientation value",
   mutant=dict(file=TRI, old="            if orientation == 0 {\n                return Err(TdsValidationError::InconsistentDataStructure {\n                    message: format!(\n                        \"Cell {:?} (key {cell_key:?}) has degenerate geometric orientation\",",
